@@ -139,6 +139,27 @@ in milliseconds (whole-millisecond values) -/
 theorem c14_announce_exact (n k : Nat) : announce n (1000 * k) = (n, k) := by
   unfold announce; congr 1; omega
 
+/-- **no request vanishes**: over every history the tags that were sent or are still held, together
+with the refused ones, are exactly (as a multiset) the tags of the requests made - whatever the
+leases did in between (`drain_conserves` is the step the drain loop of `handle_lease` has to get
+right: a request taken off the queue is either sent or stays at the head) -/
+theorem c14_no_request_lost (cap t0 : Nat) (evs : List Ev) :
+    (accepted (run (init cap t0) evs) ++ (run (init cap t0) evs).rejected).Perm (requestedTags evs) := by
+  suffices H : ∀ s : State, (accepted (run s evs) ++ (run s evs).rejected).Perm (accepted s ++ s.rejected ++ requestedTags evs) by
+    simpa [init, accepted] using H (init cap t0)
+  induction evs with
+  | nil => intro s; simp [run, requestedTags]
+  | cons e evs ih =>
+    intro s
+    have h1 := ih (step s e)
+    have h2 := step_accounts s e
+    simp only [run, List.foldl_cons] at h1 ⊢
+    refine h1.trans ?_
+    have : requestedTags (e :: evs) = requestedTags [e] ++ requestedTags evs := by
+      cases e <;> simp [requestedTags]
+    rw [this, ← List.append_assoc]
+    exact List.Perm.append_right _ h2
+
 /-- non-vacuity: lease of 2 for 100 ms, three requests held, two released in order, third held;
 a later request does not overtake it -/
 example : (run (init 0 0) [.request 1 0, .request 2 1, .request 3 2, .lease 2 100 10, .request 4 11]).sent = [(1, 10), (2, 10)] ∧
